@@ -158,6 +158,13 @@ func updArg(r *gen.R, op string, malformed bool) interface{} {
 			for i := 0; i < r.N(4); i++ {
 				each = append(each, r.Scalar())
 			}
+			if r.P(35) {
+				// repeated values inside the list itself (also equal numbers of different types, and documents)
+				pool := []interface{}{int32(7), int64(7), float64(7), "q", bson.D{{Key: "k", Value: int32(1)}}, bson.D{{Key: "k", Value: 1.0}}, nil, bson.A{int32(1)}}
+				for i := 0; i < 2+r.N(3); i++ {
+					each = append(each, pool[r.N(len(pool))])
+				}
+			}
 			d := bson.D{{Key: "$each", Value: each}}
 			if malformed && r.P(30) {
 				d = append(d, bson.E{Key: "$position", Value: int32(0)})
@@ -269,7 +276,7 @@ func sentinelise(v interface{}, start time.Time) interface{} {
 			return primitive.DateTime(0)
 		}
 	case primitive.Timestamp:
-		if int64(x.T) >= start.Unix()-2 {
+		if int64(x.T) >= start.Unix()-2 && int64(x.T) <= time.Now().Unix()+2 {
 			return primitive.Timestamp{}
 		}
 	case bson.D:
@@ -501,6 +508,65 @@ func init() {
 				}
 				if strings.Join(before, ",") != strings.Join(after, ",") {
 					add("C11", "untouched fields changed value or position", "untouched-fields", strings.Join(before, ",")+" vs "+strings.Join(after, ","))
+				}
+				// $addToSet adds every value at most once: the elements of the result that were not in the original array are
+				// pairwise different (independent of the model; literal top-level paths only)
+				for _, e := range upd {
+					if e.Key != "$addToSet" {
+						continue
+					}
+					cd, _ := e.Value.(bson.D)
+					for _, cnd := range cd {
+						if strings.ContainsAny(cnd.Key, ".$") || cnd.Key == "" {
+							continue
+						}
+						before, _ := bsonkit.Get(&doc, cnd.Key).(bson.A)
+						after, ok := bsonkit.Get(&out.doc, cnd.Key).(bson.A)
+						if !ok || len(after) < len(before) {
+							continue
+						}
+						added := after[len(before):]
+						for i := range added {
+							for j := range added {
+								if i < j && bsonkit.Compare(added[i], added[j]) == 0 {
+									add("C11", "$addToSet added the same value twice", "addtoset-duplicate", cnd.Key+": "+vj.Enc(after))
+								}
+							}
+							for _, b := range before {
+								if bsonkit.Compare(added[i], b) == 0 {
+									add("C11", "$addToSet added a value that was already present", "addtoset-duplicate", cnd.Key+": "+vj.Enc(after))
+								}
+							}
+						}
+					}
+				}
+				// a field cannot be created below an explicit null (document field or array element): MongoDB rejects
+				// "Cannot create field 'b' in element {a: null}"; literal paths of $set/$inc/$min/$max/$mul/$push/$addToSet
+				for _, e := range upd {
+					switch e.Key {
+					case "$set", "$inc", "$mul", "$min", "$max", "$push", "$addToSet":
+					default:
+						continue
+					}
+					cd, _ := e.Value.(bson.D)
+					for _, cnd := range cd {
+						if strings.Contains(cnd.Key, "$") || cnd.Key == "" {
+							continue
+						}
+						segs := strings.Split(cnd.Key, ".")
+						for k := 1; k < len(segs); k++ {
+							pre := strings.Join(segs[:k], ".")
+							if v := bsonkit.Get(&doc, pre); v == nil {
+								// (an accepted no-op through a null, e.g. $addToSet of nothing, is a milder deviation: counted only)
+								if now := bsonkit.Get(&out.doc, pre); now != nil {
+									add("C11", "an update created a field below an explicit null", "created-below-null", cnd.Key)
+								} else {
+									c.Tags = append(c.Tags, "noop-through-null-accepted")
+								}
+								break
+							}
+						}
+					}
 				}
 				// idempotence
 				allIdem := !hasCurrentDate(upd)
